@@ -214,7 +214,7 @@ fn gen_module(idx: usize, rng: &mut Rng, ks: &[FKind]) -> Module {
 /// Generate, compile and run the corpus; judge the records. Returns `Err(2)` when the corpus cannot
 /// be built for a reason that is not in a generated module (inconclusive).
 pub fn run_corpus(ctx: &Ctx, stats: &mut Stats, viol: &mut Vec<Violation>) -> Result<(), i32> {
-    let n = ctx.tier.pick(40usize, 400);
+    let n = ctx.tier.pick(100usize, 400);
     let ks = kinds();
     let mut rng = Rng::new(ctx.subseed("c05-derive-corpus", 0));
     let modules: Vec<Module> = (0..n).map(|i| gen_module(i, &mut rng, &ks)).collect();
